@@ -54,6 +54,8 @@ type Engine struct {
 	stateInvs  []predApp           // invariants of the instrumented semantics, assumed in every state
 	storeFacts map[string]predApp  // comp -> fact asserted after a store into an object of that comp
 	ghostByValue  map[string]bool
+	named         map[string]string
+	regionAcc     map[string][]string
 	nonNilGlobals map[*ssa.Global]bool
 	nonNilComps   map[string]bool
 }
@@ -114,13 +116,13 @@ func (e *Engine) stringConst(x *Exec, s string) string {
 	name := "strc!" + strconv.Itoa(id)
 	if !x.declared[name] {
 		x.declare(name, "Slice")
-		x.cmds = append(x.cmds, fmt.Sprintf("(assert (and (wfStr %s) (= (s_len %s) %d) (> (s_base %s) 0) (< (s_base %s) %s)))", name, name, len(s), name, name, x.entryNa))
+		x.emit(fmt.Sprintf("(assert (and (wfStr %s) (= (s_len %s) %d) (> (s_base %s) 0) (< (s_base %s) %s)))", name, name, len(s), name, name, x.entryNa))
 	}
 	return name
 }
 
 func loadEngine(repo, verifDir string, patterns []string, overlay map[string][]byte) (*Engine, error) {
-	e := &Engine{repo: repo, verifDir: verifDir, fns: map[string]*ssa.Function{}, contracts: map[string]*Contract{}, specFns: map[string]*SpecFn{}, specConsts: map[string]string{}, ghosts: map[string]string{}, regions: map[string][]string{}, typeIDs: map[string]int{}, so: newSorts(), wsMemo: map[*ssa.Function]*WriteSet{}, wsBusy: map[*ssa.Function]bool{}, allPkgs: map[string]*types.Package{}, rowOps: map[string]bool{}, mapCards: map[string]string{}, strConsts: map[string]int{}, axioms: map[string][]Clause{}, onStore: map[string]string{}, storeFacts: map[string]predApp{}, ghostByValue: map[string]bool{}}
+	e := &Engine{repo: repo, verifDir: verifDir, fns: map[string]*ssa.Function{}, contracts: map[string]*Contract{}, specFns: map[string]*SpecFn{}, specConsts: map[string]string{}, ghosts: map[string]string{}, regions: map[string][]string{}, typeIDs: map[string]int{}, so: newSorts(), wsMemo: map[*ssa.Function]*WriteSet{}, wsBusy: map[*ssa.Function]bool{}, allPkgs: map[string]*types.Package{}, rowOps: map[string]bool{}, mapCards: map[string]string{}, strConsts: map[string]int{}, axioms: map[string][]Clause{}, onStore: map[string]string{}, storeFacts: map[string]predApp{}, ghostByValue: map[string]bool{}, named: map[string]string{}, regionAcc: map[string][]string{}}
 	// scratch copy of go.mod/go.sum so that the repository is never written
 	tmp, err := os.MkdirTemp("", "govcmod")
 	if err != nil {
@@ -311,7 +313,18 @@ func (e *Engine) loadSpecSMT(path string) error {
 				decl = append(decl, fmt.Sprintf("(Reg%s_%s %s)", fs[1], strings.TrimPrefix(c, "H_"), e.so.comps[c]))
 			}
 			e.regions[fs[1]] = comps
-			e.regionDecl = append(e.regionDecl, fmt.Sprintf("(declare-datatypes ((Reg%s 0)) (((mkReg%s %s))))", fs[1], fs[1], strings.Join(decl, " ")))
+			// an uninterpreted sort with accessors (no constructor: equality of two
+			// region records never turns into array extensionality reasoning)
+			rd := fmt.Sprintf("(declare-sort Reg%s 0)\n", fs[1])
+			for _, d := range decl {
+				parts := splitSexp(d)
+				rd += fmt.Sprintf("(declare-fun %s (Reg%s) %s)\n", parts[0], fs[1], parts[1])
+			}
+			e.regionDecl = append(e.regionDecl, rd)
+			e.regionAcc[fs[1]] = nil
+			for _, d := range decl {
+				e.regionAcc[fs[1]] = append(e.regionAcc[fs[1]], splitSexp(d)[0])
+			}
 		case "onstore":
 			// ;@onstore iavl.Node.leftNode ghostset inptr
 			if len(fs) != 4 || fs[2] != "ghostset" {
@@ -324,6 +337,13 @@ func (e *Engine) loadSpecSMT(path string) error {
 			}
 			si := e.so.structInfo(t)
 			e.onStore[e.so.structComp(t)+"."+si.Name+"_"+fs[1][i+1:]] = fs[3]
+		case "named":
+			// ;@named iavl.Node namedN — every program value of type *Node is marked (namedN v)
+			t := e.lookupType(fs[1], nil)
+			if t == nil {
+				return fmt.Errorf("%s:%d: unknown type %s", path, ln+1, fs[1])
+			}
+			e.named[typeKey(t)] = fs[2]
 		case "stateinv":
 			e.stateInvs = append(e.stateInvs, predApp{Pred: fs[1], Args: fs[2:]})
 		case "storefact":
@@ -355,7 +375,7 @@ func (e *Engine) loadSpecSMT(path string) error {
 		case "specfn":
 			// ;@specfn name [regions] : sorts -> result
 			rest := strings.TrimSpace(strings.TrimPrefix(strings.TrimSpace(strings.TrimPrefix(line, ";@")), "specfn"))
-			ci := strings.Index(rest, ":")
+			ci := strings.Index(rest, " : ") + 1
 			ai := strings.LastIndex(rest, "->")
 			if ci < 0 || ai < 0 {
 				return fmt.Errorf("%s:%d: bad specfn", path, ln+1)
@@ -565,7 +585,7 @@ func (e *Engine) axiomPkgs(p *types.Package) []string {
 }
 
 func (e *Engine) newExec(fn *ssa.Function, ct *Contract) *Exec {
-	return &Exec{eng: e, so: e.so, declared: map[string]bool{}, fn: fn, ct: ct, entryComps: map[string]string{}, cellClo: map[string]*closure{}, notes: map[string]bool{}, nameCount: map[string]int{}, regCache: map[string]string{}}
+	return &Exec{eng: e, so: e.so, declared: map[string]bool{}, fn: fn, ct: ct, entryComps: map[string]string{}, cellClo: map[string]*closure{}, notes: map[string]bool{}, nameCount: map[string]int{}, regCache: map[string]string{}, symNa: map[string]string{}}
 }
 
 // FuncResult: the obligations generated for one function.
@@ -574,6 +594,8 @@ type FuncResult struct {
 	Contract *Contract
 	Obls     []*Obligation
 	Cmds     []string
+	CmdTag   []int
+	Anc      [][]bool // Anc[b][a]: block a can reach block b
 	Notes    []string
 	Sweep    bool
 }
@@ -618,6 +640,7 @@ func (e *Engine) verifyFunc(fn *ssa.Function, ct *Contract, sweep bool, props []
 			x.assume("", f)
 		}
 		fr.vals[p] = sval{t: s}
+		x.markNamed(s, p.Type())
 		name := p.Name()
 		if i < len(ct.Params) {
 			name = ct.Params[i]
@@ -663,61 +686,90 @@ func (e *Engine) verifyFunc(fn *ssa.Function, ct *Contract, sweep bool, props []
 	if len(ct.Requires) > 0 {
 		x.obls = append(x.obls, &Obligation{Name: fn.String() + "#vacuity:requires", Kind: "vacuity", Func: fn.String(), Idx: len(x.cmds), Guard: "true", Goal: "false", Vacuity: true, Props: ct.Props, Desc: "precondition is satisfiable"})
 	}
-	rets, stF, reachRet := x.execBody(fr, st0, "true")
+	x.curBlock = -1
+	_, _, reachRet := x.execBody(fr, st0, "true")
+	x.curBlock = -1
+	res.Anc = cfgAncestors(fn)
 	if reachRet != "false" {
 		var rts []types.Type
 		for i := 0; i < fn.Signature.Results().Len(); i++ {
 			rts = append(rts, fn.Signature.Results().At(i).Type())
 		}
-		post := x.baseEnv(fr, stF, st0)
-		for k, v := range env.vars {
-			post.vars[k] = v
-		}
-		for i, r := range rets {
-			if i < len(ct.Results) {
-				post.vars[ct.Results[i]] = TVal{T: r.t, Sort: e.so.sortOf(rts[i]), Ty: rts[i]}
-			} else if nm := fn.Signature.Results().At(i).Name(); nm != "" {
-				post.vars[nm] = TVal{T: r.t, Sort: e.so.sortOf(rts[i]), Ty: rts[i]}
+		// one environment per return site
+		var posts []*Env
+		for _, r := range x.topRets {
+			post := x.baseEnv(fr, r.st, st0)
+			for k, v := range env.vars {
+				post.vars[k] = v
 			}
-		}
-		if len(rets) == 1 {
-			post.vars["result"] = TVal{T: rets[0].t, Sort: e.so.sortOf(rts[0]), Ty: rts[0]}
+			for i, rv := range r.vals {
+				if i < len(ct.Results) {
+					post.vars[ct.Results[i]] = TVal{T: rv.t, Sort: e.so.sortOf(rts[i]), Ty: rts[i]}
+				} else if nm := fn.Signature.Results().At(i).Name(); nm != "" {
+					post.vars[nm] = TVal{T: rv.t, Sort: e.so.sortOf(rts[i]), Ty: rts[i]}
+				}
+			}
+			if len(r.vals) == 1 {
+				post.vars["result"] = TVal{T: r.vals[0].t, Sort: e.so.sortOf(rts[0]), Ty: rts[0]}
+			}
+			posts = append(posts, post)
 		}
 		for i, en := range ct.Ensures {
-			t, err := post.trClause(en.Text)
-			if err != nil {
-				e.specError(en, err)
-				continue
-			}
 			lab := en.Label
 			if lab == "" {
 				lab = strconv.Itoa(i + 1)
 			}
-			// postconditions are independent goals: do not let one feed the next
-			mark := len(x.cmds)
-			x.oblige("post", lab, reachRet, t, "postcondition: "+en.Text, fn.Pos())
-			x.cmds = x.cmds[:mark]
+			var cases []oblCase
+			bad := false
+			for k, r := range x.topRets {
+				t, err := posts[k].trClause(en.Text)
+				if err != nil {
+					e.specError(en, err)
+					bad = true
+					break
+				}
+				cases = append(cases, oblCase{Idx: len(x.cmds), Guard: r.cond, Goal: t, Block: r.block})
+			}
+			if bad {
+				continue
+			}
+			// postconditions are proved in order; earlier ones may be used for later ones
+			x.obligeCases("post", lab, cases, "postcondition: "+en.Text, fn.Pos())
 		}
 		if !sweep {
-			mark := len(x.cmds)
-			x.frameFacts(ct, post, nil, st0, stF, reachRet, true, "")
-			// frame obligations are independent too (their assumed copies are dropped)
-			var kept []string
-			for _, c := range x.cmds[mark:] {
-				if strings.HasPrefix(c, "(declare-const") || strings.HasPrefix(c, "(assert (= ") {
-					kept = append(kept, c)
-				}
-			}
-			_ = kept
+			x.frameCases(ct, posts, st0)
 		}
 	}
 	res.Obls = x.obls
 	res.Cmds = x.cmds
+	res.CmdTag = x.cmdTag
 	for n := range x.notes {
 		res.Notes = append(res.Notes, n)
 	}
 	sort.Strings(res.Notes)
 	return res
+}
+
+// cfgAncestors: Anc[b][a] is true iff block a can reach block b (or a == b).
+func cfgAncestors(fn *ssa.Function) [][]bool {
+	n := len(fn.Blocks)
+	anc := make([][]bool, n)
+	for b := 0; b < n; b++ {
+		anc[b] = make([]bool, n)
+		stack := []*ssa.BasicBlock{fn.Blocks[b]}
+		anc[b][b] = true
+		for len(stack) > 0 {
+			c := stack[len(stack)-1]
+			stack = stack[:len(stack)-1]
+			for _, p := range c.Preds {
+				if !anc[b][p.Index] {
+					anc[b][p.Index] = true
+					stack = append(stack, p)
+				}
+			}
+		}
+	}
+	return anc
 }
 
 func (x *Exec) bindLetsTop(ct *Contract, env *Env) {
